@@ -141,11 +141,12 @@ func (ks *KafkaStorage) GetMessages(_ uint64) ([]storage.Message, error) {
 	ctx, cancel := context.WithDeadline(ks.readerCtx, time.Now().Add(ks.readDuration))
 	defer cancel()
 
-	var (
-		message  storage.Message
-		messages []storage.Message
-	)
+	var messages []storage.Message
 	for {
+		// a fresh value for every record: json.Unmarshal leaves absent fields as they are, and a
+		// record without some keys must not inherit them from the record read before it
+		var message storage.Message
+
 		kafkaMessage, err := ks.reader.ReadMessage(ctx)
 		if err != nil {
 			if errors.Is(err, context.DeadlineExceeded) || errors.Is(err, context.Canceled) {
